@@ -121,6 +121,55 @@ def st_opt_unwrap_or(ex, callee, args, st):
     return [("return", payload if some else args[1], None, st2) for some, payload, st2 in _opt_split(ex, args[0], st)]
 
 
+def st_opt_map(ex, callee, args, st):
+    """Option::map(opt, f): f is a capture-less fn item (`Box::new`) or a closure whose body is in the dump."""
+    res = []
+    cm = re.search(r"(\{closure@[^}]+\})", callee)
+    for some, payload, st2 in _opt_split(ex, args[0], st):
+        if not some:
+            res.append(("return", Adt("Option", "None", []), None, st2))
+            continue
+        if cm:
+            ctext = cm.group(1)
+            cands = [f for f in ex.p.fns.values() if f.params and ctext in f.params[0][1] and "{closure#" in f.name]
+            if len(cands) != 1:
+                raise Unsupported(f"cannot resolve closure of {callee}")
+            for o in ex.run(cands[0], [args[1], payload], {}, 1, st2):
+                if o.kind == "return":
+                    res.append(("return", Adt("Option", "Some", [o.value]), None, o.state))
+                else:
+                    res.append((o.kind, o.value, o.info, o.state))
+        elif "Box::<" in callee and callee.rstrip("}").endswith("::new"):
+            res.append(("return", Adt("Option", "Some", [payload]), None, st2))
+        else:
+            raise Unsupported(f"Option::map with {callee}")
+    return res
+
+
+def st_opt_transpose(ex, callee, args, st):
+    res = []
+    for some, payload, st2 in _opt_split(ex, args[0], st):
+        if not some:
+            res.append(("return", Adt("Result", "Ok", [Adt("Option", "None", [])]), None, st2))
+            continue
+        v = ex.deref(payload, st2)
+        if isinstance(v, Adt) and v.variant == "Ok":
+            f = v.fields[0]
+            res.append(("return", Adt("Result", "Ok", [Adt("Option", "Some", [f[1] if isinstance(f, tuple) else f])]), None, st2))
+        elif isinstance(v, Adt) and v.variant == "Err":
+            res.append(("return", Adt("Result", "Err", list(v.fields)), None, st2))
+        elif isinstance(v, Sym) and v.tdef is not None and v.tdef.name == "Result":
+            s_ok = ex._assume_switch(st2, v.tag(), "0", [])
+            if s_ok is not None:
+                res.append(("return", Adt("Result", "Ok", [Adt("Option", "Some", [v.child("Ok", 0)])]), None, s_ok))
+            s_err = ex._assume_switch(st2, v.tag(), "1", [])
+            if s_err is not None:
+                res.append(("return", Adt("Result", "Err", [v.child("Err", 0)]), None, s_err))
+        else:
+            raise Unsupported(f"transpose of {v!r}")
+    return res
+
+
 def st_try_branch(ex, callee, args, st):
     v = ex.deref(args[0], st)
     if isinstance(v, Adt) and v.variant in ("Ok", "Some"):
@@ -148,6 +197,9 @@ def st_from_residual(ex, callee, args, st):
 
 STATE_INTRINSICS = {
     r"(^|::)Box::<.*>::new$": st_clone,
+    r"Option::<.*>::as_ref$": st_clone,
+    r"Option::<.*>::map::<.*>$": st_opt_map,
+    r"Option::<.*>::transpose$": st_opt_transpose,
     r"Option::<.*>::(expect|unwrap)$": st_opt_expect,
     r"Option::<.*>::is_some$": st_opt_is(True),
     r"Option::<.*>::is_none$": st_opt_is(False),
